@@ -151,6 +151,7 @@ type VC struct {
 	nonNilGlobs []string
 	ldCache     map[string][]string
 	atCallSeen  map[string]int
+	factGuard   string // path condition under which facts derived during a contract evaluation hold
 }
 
 type loopInfo struct {
@@ -340,7 +341,11 @@ func (vc *VC) rangeFact(term string, l Leaf, h Heap) string {
 	case SIface:
 		return "(and (<= 0 (p_obj (i_pl " + term + "))) (<= (p_obj (i_pl " + term + ")) " + h.Alloc + ") (<= 0 (i_tid " + term + ")) (=> (= (i_tid " + term + ") 0) (= " + term + " niliface)))"
 	case SRef:
-		return "(and (<= 0 " + term + ") (<= " + term + " " + h.Alloc + "))"
+		f := "(and (<= 0 " + term + ") (<= " + term + " " + h.Alloc + "))"
+		if _, isMap := l.T.Underlying().(*types.Map); isMap {
+			f = and(f, implies(not(eq(term, "0")), eq("(dyntype "+term+")", num(int64(vc.mapTypeID(l.T))))))
+		}
+		return f
 	}
 	return "true"
 }
@@ -372,6 +377,14 @@ func (vc *VC) backingType(t types.Type) (int, bool) {
 	id := vc.typeID2("[]backing:" + k)
 	vc.recordIDType(id, el)
 	return id, true
+}
+
+// mapTypeID: map objects carry the id of their (underlying) map type, so that a loop that
+// updates maps of one type leaves maps of other types alone.
+func (vc *VC) mapTypeID(t types.Type) int {
+	id := vc.typeID2("map:" + types.TypeString(t.Underlying(), nil))
+	vc.recordIDType(id, types.Typ[types.Int])
+	return id
 }
 
 func (vc *VC) typeID2(s string) int {
@@ -432,19 +445,54 @@ func (vc *VC) recordBounds(h *Heap) {
 
 // assumeLoadRanges is assumeRanges for values read from heap version h: references are
 // bounded by the allocation counter of the version they were read from.
-func (vc *VC) assumeLoadRanges(terms []string, t types.Type, h Heap) {
-	r := vc.root()
+func (vc *VC) assumeLoadRanges(terms []string, t types.Type, h Heap, from ...string) {
+	// Facts about a value derived from a heap version hold only on the paths where that heap
+	// version is the actual state: they are guarded by the current path condition. (Asserted
+	// unconditionally they can make *other* paths infeasible - e.g. "0 <= len" of a slice
+	// header that another branch computed as len-1.)
+	guard := vc.root().factGuard
+	if guard == "" {
+		guard = vc.curR
+	}
+	if guard == "" {
+		guard = "true"
+	}
 	ls := vc.L.Leaves(t)
 	for i, l := range ls {
 		if i >= len(terms) {
 			break
 		}
-		hb := h
-		if b, ok := r.heapBound[h.H[l.Sort]]; ok {
-			hb.Alloc = b
+		for _, f := range vc.loadFacts(terms[i], l, h, from...) {
+			vc.assume(implies(guard, f))
 		}
-		vc.assume(vc.rangeFact(terms[i], l, hb))
 	}
+}
+
+// loadFacts: well-typedness of a value read from heap version h. References are bounded by the
+// current allocation counter; if the object read from (from[0]) already existed when that heap
+// version came into being, they are bounded by the counter of that moment (objects above a
+// version's counter hold arbitrary contents - e.g. an object a callee allocated and returned).
+func (vc *VC) loadFacts(term string, l Leaf, h Heap, from ...string) []string {
+	out := []string{vc.rangeFact(term, l, h)}
+	b, ok := vc.root().heapBound[h.H[l.Sort]]
+	if !ok || b == h.Alloc || len(from) == 0 || from[0] == "" {
+		return out
+	}
+	var ref string
+	switch l.Sort {
+	case SPtr:
+		ref = "(p_obj " + term + ")"
+	case SSlice:
+		ref = "(s_obj " + term + ")"
+	case SIface:
+		ref = "(p_obj (i_pl " + term + "))"
+	case SRef:
+		ref = term
+	default:
+		return out
+	}
+	out = append(out, implies("(<= "+from[0]+" "+b+")", "(<= "+ref+" "+b+")"))
+	return out
 }
 
 // ---------------------------------------------------------------- heap access
